@@ -458,6 +458,19 @@ class SVal:
                 env[k] = ('list', cur[1] + tuple(add))
                 self._record_call(call, env, pc, args)
                 return
+        if cur is not None and cur[0] == 'dict' and f.attr == 'setdefault' and len(call.args) == 2 and not call.keywords:
+            # D.setdefault(k, v) as a statement is `if k not in D: D[k] = v`
+            key, val = self.ev(call.args[0], env, pc), self.ev(call.args[1], env, pc)
+            bt = self.ev(f.value, env, pc, record=False)
+            npc = pc + ((self.mk_cmp('in', key, bt), False),)
+            self._seq += 1
+            self.stores.append((('index', bt, key), val, norm_pc(npc), call, self._seq))
+            ent = self._item((key, val), npc, env)
+            if ent[0] == 'when':
+                ent = ('when', ent[1], key, val)
+            env[k] = ('dict', cur[1] + (ent,))
+            self._record_call(call, env, pc, [key, val])
+            return
         self.ev(call, env, pc)
         # a mutating call on a tracked container makes its term opaque
         if cur is not None and cur[0] in ('list', 'dict') and f.attr in ('pop', 'remove', 'clear', 'insert', 'sort', 'reverse',
@@ -1310,6 +1323,13 @@ def mk_attr(b, name):
         for p, v in b[3]:
             if p == name:
                 return v
+    # a field of record._replace(f=v, ..) is v when f is replaced, else the field of the record
+    if b[0] == 'call' and b[1] == 'method._replace' and len(b) >= 4:
+        for p, v in b[3]:
+            if p == name:
+                return v
+        if all(isinstance(p, str) and not p.startswith('#') and p != '**' for p, _ in b[3]):
+            return mk_attr(b[2], name)
     if b[0] == 'cond':
         a1, a2 = mk_attr(b[2], name), mk_attr(b[3], name)
         if a1[0] != 'attr' or a2[0] != 'attr':
@@ -1489,6 +1509,18 @@ def subst_params(t, mapping):
         if t and t[0] == 'const':
             return t
         return tuple(subst_params(x, mapping) for x in t)
+    return t
+
+
+def refold(t):
+    """a term after substitution, with the fields of records that have become visible (`ChildSa(proposal=p, ..).proposal`) read off"""
+    if isinstance(t, tuple):
+        if t and t[0] == 'const':
+            return t
+        t2 = tuple(refold(x) for x in t)
+        if len(t2) == 3 and t2[0] == 'attr' and isinstance(t2[1], tuple) and isinstance(t2[2], str):
+            return mk_attr(t2[1], t2[2])
+        return t2
     return t
 
 
